@@ -22,6 +22,11 @@ struct Case {
 static Case gen_case() {
   Case c;
   int size = current_size();
+  if (chance(2)) {
+    c.h = AddHist();
+    gen_many_blocks_pooled(c.h.cfg, c.h.adds);
+    return c;
+  }
   if (chance(50)) {
     // strictly increasing tables with the full configuration space (C01's domain)
     c.h.cfg = gen_config(chance(50));
